@@ -2,6 +2,9 @@
 # tools/recheck_direct.sh <name> : rebuild the patched zerv of seeded/<name> in /tmp/wt-confirm and run the current
 # quick (then capped thorough) check against that binary without touching /repo; updates meta.json
 set -u
+# the scratch worktree is created on demand (and should be removed again when a batch is done:
+# git -C /repo worktree remove --force /tmp/wt-confirm)
+[ -d /tmp/wt-confirm ] || git -C /repo worktree add --detach /tmp/wt-confirm HEAD >/dev/null 2>&1
 name="$1"; out="/verif/seeded/$name"
 id=$(python3 -c "import json;print(json.load(open('$out/meta.json'))['property'])")
 cd /tmp/wt-confirm && git checkout -q -- . && git apply "$out/patch.diff" && cargo build --offline --bin zerv >/dev/null 2>&1 && cp target/debug/zerv /tmp/wt-confirm.zerv-patched; git checkout -q -- .
